@@ -502,6 +502,48 @@ Proof.
       apply existsb_exists. exists b. split; [exact Hbin|apply Z.eqb_refl].
 Qed.
 
+(* ... and exactly the input list when the labels are given in ascending bit order *)
+Lemma bits_of_combine d ls : forall bs, bits_of d ls = Some bs ->
+  map fst (combine ls bs) = ls /\ map snd (combine ls bs) = bs /\
+  (forall lb, In lb (combine ls bs) -> dget (fst lb) d = Some (snd lb)).
+Proof.
+  induction ls as [|l ls IH]; intros bs H.
+  - inversion H. cbn. repeat split. intros lb [].
+  - rewrite bits_of_cons in H. destruct (dget l d) as [b0|] eqn:E; [|discriminate].
+    destruct (bits_of d ls) as [r|] eqn:E2; [|discriminate]. inversion H; subst.
+    destruct (IH r eq_refl) as (A & B & C). cbn [combine map fst snd]. rewrite A, B. repeat split.
+    intros lb [<-|Hin]; [exact E|apply C; exact Hin].
+Qed.
+
+Lemma sorted_map_snd (P : list (str * Z)) : StronglySorted Z.lt (map snd P) -> StronglySorted lt_snd P.
+Proof.
+  induction P as [|x P IH]; cbn [map]; intros H; [constructor|].
+  inversion H as [|? ? Hs Hf]; subst. constructor; [apply IH; exact Hs|].
+  rewrite Forall_forall in *. intros y Hy. apply Hf. apply in_map. exact Hy.
+Qed.
+
+Theorem names_val_names_sorted d ls bs : wf_group d -> bits_of d ls = Some bs -> StronglySorted Z.lt bs ->
+  spec_names d (or_bits bs) = ls.
+Proof.
+  intros Hwf Hbits Hsorted. pose proof Hwf as (Hl & Hb & Hr).
+  destruct (bits_of_combine d ls bs Hbits) as (A & B & C).
+  assert (Forall (fun b => 0 <= b) bs) as Hbs.
+  { eapply Forall_impl; [|apply (bits_of_range d ls bs Hr Hbits)]. cbn. intros; lia. }
+  assert (Hsub : forall lb, In lb (combine ls bs) -> In lb d).
+  { intros lb Hin. pose proof (C lb Hin) as Hg. apply dget_In in Hg. rewrite <- surjective_pairing in Hg. exact Hg. }
+  assert (selected d (or_bits bs) = combine ls bs) as E.
+  { symmetry. apply (selected_char d (or_bits bs) (combine ls bs) Hwf). split.
+    - apply sorted_map_snd. rewrite B. exact Hsorted.
+    - intros lb. rewrite or_bits_testbit by exact Hbs. split.
+      + intros Hin. split; [apply Hsub; exact Hin|]. apply existsb_exists. exists (snd lb).
+        split; [rewrite <- B; apply in_map; exact Hin|apply Z.eqb_refl].
+      + intros [Hd Ht]. apply existsb_exists in Ht. destruct Ht as (b & Hbin & Eb). apply Z.eqb_eq in Eb. subst b.
+        rewrite <- B in Hbin. apply in_map_iff in Hbin. destruct Hbin as (lb' & Es & Hin').
+        assert (lb' = lb) as -> by (apply (NoDup_map_inj snd d); [exact Hb|apply Hsub; exact Hin'|exact Hd|exact Es]).
+        exact Hin'. }
+  unfold spec_names. fold (selected d (or_bits bs)). rewrite E. exact A.
+Qed.
+
 (* a non-zero 64-bit value has a set bit below 64: the scan enters its loop *)
 Lemma set_bits_nonempty v : 0 < v < 2 ^ 64 -> set_bits v <> [].
 Proof.
